@@ -6,13 +6,22 @@ import json
 from harness.tlc import run_tlc, MachineryError
 
 
+def _denull(x):
+    """TLC's JSON module has no null: drop None-valued keys, replace None items by "" """
+    if isinstance(x, dict):
+        return {k: _denull(v) for k, v in x.items() if v is not None}
+    if isinstance(x, (list, tuple)):
+        return ["" if v is None else _denull(v) for v in x]
+    return x
+
+
 def validate(ctx, module, traces, name, cfg=None, timeout=3600, env=None, files=None,
              counts_as_impl=True, deque=False):
     """traces: list of dicts with an 'events' list.  Returns list of verdict dicts
     {tid, reached, need, accepted, inv}.  Raises MachineryError when TLC fails."""
     if not traces:
         return []
-    text = '\n'.join(json.dumps(t) for t in traces) + '\n'
+    text = '\n'.join(json.dumps(_denull(t)) for t in traces) + '\n'
     f = {'trace.ndjson': text}
     f.update(files or {})
     e = {'TRACE_FILE': 'trace.ndjson'}
